@@ -773,7 +773,7 @@ def chain_engine(prop, tier, replay, t0):
                     nchains += 1
         plan = 'chains:0' if thorough else 'chains:2500'
         # shared schema objects used at several places of a larger schema (the second half of C17)
-        plan += ',shared:%d' % (3000 if thorough else 400)
+        plan += ',shared:%d,random:%d,catch:%d' % ((3000, 3000, 4000) if thorough else (400, 300, 900))
         st = vlib.harness(['exec', '-plan', plan, '-cases', cases, '-seed', str(vlib.seed()), '-out', trace])
     verdicts, tv = vlib.validate_traces('Trace_Exec', trace, vlib.exec_consts(soft='any'))
     viol = [v for v in verdicts if v['prop'] == 'C17']
